@@ -14,7 +14,7 @@ def sh(cmd, cwd=None, env=ENV, timeout=3600):
     return p.returncode, p.stdout
 def main():
     ID = sys.argv[1]
-    checks = [ID]; tier = "quick"; skip_suite = False; srcroot = "/tmp/seedout"; offset = 0
+    checks = [ID]; tier = "quick"; skip_suite = False; srcroot = "/tmp/seedout"; offset = 0; vdir = "/verif"; only = None; reuse = False
     a = sys.argv[2:]
     while a:
         x = a.pop(0)
@@ -23,14 +23,28 @@ def main():
         elif x == "--skip-suite": skip_suite = True
         elif x == "--src": srcroot = a.pop(0)
         elif x == "--offset": offset = int(a.pop(0))
+        elif x == "--verif": vdir = a.pop(0)      # run the checks from this copy of /verif (own build dir and lock)
+        elif x == "--stored": reuse = True        # take patch/demo from /verif/seeded/<ID>-<n> instead of a seeder's delivery
+        elif x == "--only": only = a.pop(0)       # with --stored: only this <n>
     src = srcroot + "/" + ID
-    for pf in sorted(glob.glob(src + "/patch*.diff")):
-        i = re.search(r"patch(\d+)\.diff", pf).group(1)
-        out = "/verif/seeded/%s-%d" % (ID, int(i) + offset)
+    items = []
+    if reuse:
+        for d in sorted(glob.glob("/verif/seeded/%s-*" % ID)):
+            n = d.rsplit("-", 1)[1]
+            if only and n != only: continue
+            items.append((d + "/patch.diff", n, d))
+    else:
+        for pf in sorted(glob.glob(src + "/patch*.diff")):
+            items.append((pf, re.search(r"patch(\d+)\.diff", pf).group(1), None))
+    for pf, i, stored in items:
+        out = stored or "/verif/seeded/%s-%d" % (ID, int(i) + offset)
         os.makedirs(out, exist_ok=True)
         meta = {}
         mf = src + "/meta%s.json" % i
-        if os.path.exists(mf):
+        if stored:
+            try: meta = json.load(open(stored + "/meta.json")).get("seed_meta", {})
+            except Exception: meta = {}
+        elif os.path.exists(mf):
             try: meta = json.load(open(mf))
             except Exception as e: meta = {"meta_parse_error": str(e)}
         res = {"seed_meta": meta, "property": ID}
@@ -47,7 +61,7 @@ def main():
             res["apply_error"] = o[-500:]
             print(ID, i, "patch does not apply at HEAD", o[-300:])
         else:
-            demos = glob.glob(src + "/demo%s_test.go" % i)
+            demos = glob.glob(stored + "/*_test.go") if stored else glob.glob(src + "/demo%s_test.go" % i)
             demo_pkg = "."
             dc = meta.get("demo_cmd", "")
             m = re.search(r"cp \S+ (\S+)", dc)
@@ -73,7 +87,7 @@ def main():
                 res["demo_cmd"] = c
                 if rc0 != 0: res["demo_without_output"] = o0[-800:]
                 os.remove(os.path.join(wt, dst))
-                shutil.copy(demos[0], out + "/" + os.path.basename(demos[0]))
+                if not stored: shutil.copy(demos[0], out + "/" + os.path.basename(demos[0]))
             else:
                 sh("git apply %s" % pf, cwd=wt)
                 res["demo_missing"] = True
@@ -83,7 +97,7 @@ def main():
                 res["suite_output"] = o[-600:]
             det = {}
             for c in checks:
-                rc, o = sh("VERIF_REPO=%s ./run.sh check %s %s" % (wt, c, tier), cwd="/verif")
+                rc, o = sh("VERIF_REPO=%s ./run.sh check %s %s" % (wt, c, tier), cwd=vdir)
                 keys = re.findall(r"^\s+key=(\S+)", o, re.M)
                 det[c] = {"exit": rc, "violation_keys": keys, "violation_lines": len(re.findall(r"^VIOLATION ", o, re.M))}
                 if rc != 0 and not det[c]["violation_lines"]:
@@ -91,18 +105,18 @@ def main():
                 ev = "/verif/evidence/%s.json" % c
             res["checks"] = det
             res["detected"] = any(v["exit"] == 1 and v["violation_lines"] > 0 for v in det.values())
-        shutil.copy(pf, out + "/patch.diff")
+        if not stored: shutil.copy(pf, out + "/patch.diff")
         if skip_suite and os.path.exists(out + "/meta.json"):
             try:
                 old = json.load(open(out + "/meta.json"))
                 for k, v in old.items():
-                    if k.startswith("suite_"): res[k] = v
+                    if k.startswith("suite_") or k == "note": res[k] = v
                 if old.get("demo_fails_with") and not res.get("demo_fails_with") and res.get("demo_passes_without"):
                     res["demo_fails_with_note"] = "failed with the change in an earlier evaluation; schedule-dependent demo"
             except Exception: pass
         json.dump(res, open(out + "/meta.json", "w"), indent=1)
-        print(ID, int(i) + offset, {k: res.get(k) for k in ("applies", "demo_passes_without", "demo_fails_with", "suite_consistent_failures", "detected")}, {c: v["violation_keys"][:4] for c, v in res.get("checks", {}).items()})
+        print(ID, i if stored else int(i) + offset, {k: res.get(k) for k in ("applies", "demo_passes_without", "demo_fails_with", "suite_consistent_failures", "detected")}, {c: v["violation_keys"][:4] for c, v in res.get("checks", {}).items()})
         sh("git -C /repo worktree remove --force %s" % wt); shutil.rmtree(wt, ignore_errors=True)
     # restore the instrumented build and evidence of the real tree
-    sh("./run.sh build", cwd="/verif")
+    sh("./run.sh build", cwd=vdir)
 main()
